@@ -125,6 +125,13 @@ pub struct Da<T> {
     inner: T,
 }
 
+/// Tag only, body delegated: `@Db <body>` - the primitive follows an attribute without a body.
+#[derive(Form, Debug, Clone, PartialEq)]
+pub struct Db<T> {
+    #[form(body)]
+    inner: T,
+}
+
 fn strs() -> Vec<String> {
     crate::gen::text_atoms().into_iter().map(|s| s.to_string()).collect()
 }
@@ -346,6 +353,20 @@ pub fn run_all(r: &mut Runner) {
     r.run::<Dp<Blob>>("Dp<Blob>", dp(&[Blob::from_vec(vec![]), Blob::from_vec(vec![0, 255])]));
     r.run::<Dp<Option<i32>>>("Dp<Option<i32>>", dp(&[None, Some(1)]));
     r.run::<Dp<Plain>>("Dp<Plain>", dp(&[p(1, "a"), p(-1, "a b")]));
+    fn db<T: Clone>(xs: &[T]) -> Vec<Db<T>> {
+        xs.iter().map(|x| Db { inner: x.clone() }).collect()
+    }
+    r.run::<Db<i32>>("Db<i32>", db(&[0, -1, i32::MAX]));
+    r.run::<Db<i64>>("Db<i64>", db(&[i64::MIN, i64::MAX]));
+    r.run::<Db<u32>>("Db<u32>", db(&[0, u32::MAX]));
+    r.run::<Db<u64>>("Db<u64>", db(&[u64::MAX]));
+    r.run::<Db<f64>>("Db<f64>", db(&[0.0, -1.5, 1e300]));
+    r.run::<Db<bool>>("Db<bool>", db(&[true, false]));
+    r.run::<Db<BigInt>>("Db<BigInt>", db(&[two64.clone(), -two64.clone()]));
+    r.run::<Db<BigUint>>("Db<BigUint>", db(&[BigUint::from(u64::MAX) + 1u32]));
+    r.run::<Db<String>>("Db<String>", db(&["".to_string(), "a".to_string(), "a b".to_string(), "true".to_string()]));
+    r.run::<Db<Blob>>("Db<Blob>", db(&[Blob::from_vec(vec![]), Blob::from_vec(vec![0, 255])]));
+    r.run::<Db<Vec<i32>>>("Db<Vec<i32>>", db(&[vec![], vec![1], vec![1, 2]]));
     r.run::<Da<i32>>("Da<i32>", da(&[0, -1]));
     r.run::<Da<f64>>("Da<f64>", da(&[1.5, -1e-300]));
     r.run::<Da<bool>>("Da<bool>", da(&[true]));
